@@ -51,6 +51,17 @@ Base == <<
   <<"SHOW", "GRANTS", "FOR", "u">>
 >>
 
+\* base statements spelled token by token, every gap tight (blanks are tokens of their own):
+\* mutations reach inside tight constructs ( *::field, v::float, db.rp.m, f(x), time(1m) )
+TBase == <<
+  <<"SELECT", " ", "*", "::", "field", ",", " ", "v", "::", "float", ",", "count", "(", "*", "::", "tag", ")", " ", "FROM", " ", "db", ".", "rp", ".", "m", ",", " ", "db", ".", ".", "m", " ", "WHERE", " ", "h", "=~", "/a/", " ", "GROUP", " ", "BY", " ", "time", "(", "1m", ",", "10s", ")", ",", "h", "::", "tag", " ", "fill", "(", "-", "1", ")">>,
+  <<"SELECT", " ", "top", "(", "v", ",", "h", ",", "2", ")", " ", "INTO", " ", "db", ".", "rp", ".", ":", "MEASUREMENT", " ", "FROM", " ", "/m/", " ", "ORDER", " ", "BY", " ", "time", " ", "DESC", " ", "tz", "(", "'UTC'", ")">>,
+  <<"SHOW", " ", "TAG", " ", "VALUES", " ", "ON", " ", "db", " ", "FROM", " ", "rp", ".", "/m/", " ", "WITH", " ", "KEY", " ", "IN", " ", "(", "a", ",", "b", ")">>,
+  <<"SHOW", " ", "MEASUREMENTS", " ", "ON", " ", "*", ".", "*", " ", "WITH", " ", "MEASUREMENT", " ", "=~", " ", "/m/">>,
+  <<"CREATE", " ", "SUBSCRIPTION", " ", "s", " ", "ON", " ", "db", ".", "rp", " ", "DESTINATIONS", " ", "ALL", " ", "'a'", ",", "'b'">>,
+  <<"SELECT", " ", "-", "(", "a", "+", "-", "1.5", ")", "*", "f", "(", "/re/", ",", "DISTINCT", " ", "v", ")", " ", "FROM", " ", "(", "SELECT", " ", "a", " ", "FROM", " ", "m", ")">>
+>>
+
 Families == <<"paren", "paren_where", "call", "subquery", "neg", "fields", "sources", "and_chain", "or_and_chain", "arith_chain",
               "ws_run", "comment_run", "line_comment_run", "long_comment", "long_ident", "long_quoted_ident", "long_string",
               "long_number", "long_duration", "long_regex", "statements", "semicolons", "dims", "segments", "taglist",
@@ -86,6 +97,7 @@ MutStep == /\ Part = "mut" /\ ~done
            /\ \A k \in 1..Len(Base) : \A m \in Muts(Base[k]) :
                 \A b \in (IF HasBP(m) THEN {"none", "str", "int", "regex", "ident", "dur_str", "regex_bad", "unbindable"} ELSE {"none"}) :
                   Emit([part |-> "mut", toks |-> ToksG(m, "L"), bind |-> b, base |-> k])
+           /\ \A k \in 1..Len(TBase) : \A m \in Muts(TBase[k]) : Emit([part |-> "mut", toks |-> ToksG(m, "T"), bind |-> "none", base |-> 100 + k])
            /\ done' = TRUE /\ UNCHANGED seq
 
 \* ---- part "grow"
